@@ -486,6 +486,11 @@ def _units(rep, I, fi_names, rule="KN-UNITS"):
         if facets.is_top(d):
             if d.reason.startswith("unmodelled"):
                 continue
+            if "are added/compared/joined" not in d.reason:
+                # not a clash of two known dimensions (e.g. a symbolic exponent): nothing to say about units here
+                continue
+            if ev["kind"] == "compare" and e[0] == "cmp" and (e[3] == sym.ZERO or e[2] == sym.ZERO):
+                continue  # comparing with zero is meaningful in every unit
             rep.refuted(rule, ev["fi"], ev["node"], f"{label}: with coordinates in length units and covariance entries in "
                                                     f"length², {d.reason} (a variance used where a standard deviation is "
                                                     f"needed, or vice versa)")
